@@ -154,14 +154,30 @@ HEADER = ("import re\nfrom bisturi.packet import Packet\nfrom bisturi.field impo
 
 def render_family(fam, opts_override=None, suffix=""):
     """python module source defining every packet class of the family.
-    opts_override: dict merged into every class' __bisturi__ (code-generation switches)."""
+    opts_override: dict merged into every class' __bisturi__ (code-generation switches).
+    fam["shared_opts"]: classes whose options are equal use ONE module-level dict object."""
     out = [HEADER]
+    shared = {}
+    if fam.get("shared_opts"):
+        for p in fam["pkts"]:
+            opts = dict(p.get("opts") or {})
+            if opts_override:
+                opts.update(opts_override)
+            if opts:
+                key = repr(sorted(opts.items()))
+                if key not in shared:
+                    shared[key] = "OPTS%d" % len(shared)
+                    out.append("%s = %r\n" % (shared[key], opts))
+        out.append("\n")
     for p in fam["pkts"]:
         out.append("class %s%s(Packet):\n" % (p["name"], suffix))
         opts = dict(p.get("opts") or {})
         if opts_override:
-            opts.update(opts_override)
-        if opts:
+            opts.update({a: b for a, b in opts_override.items() if a != "__per_class__"})
+            opts.update(opts_override.get("__per_class__", {}).get(p["name"], {}))
+        if opts and repr(sorted(opts.items())) in shared:
+            out.append("    __bisturi__ = %s\n" % shared[repr(sorted(opts.items()))])
+        elif opts:
             out.append("    __bisturi__ = %r\n" % (opts,))
         for f in p["fields"]:
             src = render_field_ctor(f)
@@ -244,6 +260,32 @@ def effective_move(f, opts):
 
 # ------------------------------------------------------------------------------------------------ parse
 
+def run_candidates(pkt, name, start):
+    """acceptable innermost (label, offset) pairs: the field itself, or any run of adjacent fixed-size fields
+    (no positioning in between) that contains it, labelled between 'A' and 'B', at the offset where the run begins"""
+    fields = pkt["fields"]
+    opts = pkt.get("opts") or {}
+    cands = [(name, start)]
+    idxs = [k for k, g in enumerate(fields) if g["name"] == name]
+    if not idxs or not is_fixed_field(fields[idxs[0]]):
+        return cands
+    me = idxs[0]
+    lo = me
+    while lo > 0 and is_fixed_field(fields[lo - 1]) and effective_move(fields[lo], opts) is None:
+        lo -= 1
+    hi = me
+    while hi + 1 < len(fields) and is_fixed_field(fields[hi + 1]) and effective_move(fields[hi + 1], opts) is None:
+        hi += 1
+    size = lambda g: g["n"] if g["k"] == "int" else g["size"][1]
+    for a in range(lo, me + 1):
+        off = start - sum(size(fields[t]) for t in range(a, me))
+        for b in range(me, hi + 1):
+            if a != b:
+                cands.append(("between '%s' and '%s'" % (fields[a]["name"], fields[b]["name"]), off))
+    return cands
+
+
+
 class Parse:
     """one run of the reference parser over `raw`"""
     def __init__(self, fam, raw, offset=0):
@@ -254,6 +296,8 @@ class Parse:
         self.positioned = False
         self.root_values = None
         self.steps = 0
+        self.inner_stack = [offset]
+        self.moves = []     # (kind, reference, cursor before, cursor after, start of innermost packet)
 
     def run(self):
         p = root(self.fam)
@@ -264,7 +308,7 @@ class Parse:
 
     # -- spec evaluation ---------------------------------------------------------------------
     def ev(self, e, vals, cur):
-        return X.evaluate(e, X.Env(vals, self.raw, cur))
+        return X.evaluate(e, X.Env(vals, self.raw, cur, self.inner_stack[-1]))
 
     def spec_value(self, spec, vals, cur):
         m = spec[0]
@@ -290,6 +334,13 @@ class Parse:
 
     # -- packets -------------------------------------------------------------------------------
     def parse_pkt(self, pkt, vals, cur, path):
+        self.inner_stack.append(cur)
+        try:
+            return self.parse_pkt_(pkt, vals, cur, path)
+        finally:
+            self.inner_stack.pop()
+
+    def parse_pkt_(self, pkt, vals, cur, path):
         inner = cur
         opts = pkt.get("opts") or {}
         fields = pkt["fields"]
@@ -318,36 +369,12 @@ class Parse:
                 if not e.located:
                     # error raised by a leaf of this packet: innermost entry = (field, class, where it begins)
                     e.stack = [(start, name, pkt["name"])]
-                    e.cands = self.run_candidates(pkt, name, start)
+                    e.cands = run_candidates(pkt, name, start)
                     e.located = True
                 else:
                     e.stack.append((None, name, pkt["name"]))
                 raise
         return cur
-
-    def run_candidates(self, pkt, name, start):
-        """acceptable innermost (label, offset) pairs: the field itself, or any run of adjacent fixed-size fields
-        (no positioning in between) that contains it, labelled between 'A' and 'B', at the offset where the run begins"""
-        fields = pkt["fields"]
-        opts = pkt.get("opts") or {}
-        cands = [(name, start)]
-        idxs = [k for k, g in enumerate(fields) if g["name"] == name]
-        if not idxs or not is_fixed_field(fields[idxs[0]]):
-            return cands
-        me = idxs[0]
-        lo = me
-        while lo > 0 and is_fixed_field(fields[lo - 1]) and effective_move(fields[lo], opts) is None:
-            lo -= 1
-        hi = me
-        while hi + 1 < len(fields) and is_fixed_field(fields[hi + 1]) and effective_move(fields[hi + 1], opts) is None:
-            hi += 1
-        size = lambda g: g["n"] if g["k"] == "int" else g["size"][1]
-        for a in range(lo, me + 1):
-            off = start - sum(size(fields[t]) for t in range(a, me))
-            for b in range(me, hi + 1):
-                if a != b:
-                    cands.append(("between '%s' and '%s'" % (fields[a]["name"], fields[b]["name"]), off))
-        return cands
 
     def move(self, mv, vals, cur, inner):
         self.positioned = True
@@ -371,6 +398,7 @@ class Parse:
             raise Unspecified("cursor before the start of the data")
         if new > len(self.raw) + 256:
             raise Unspecified("cursor moved far beyond the end of the data")
+        self.moves.append((mv["kind"], ref, cur, new, inner))
         return new
 
     def err(self, kind, msg):
@@ -592,6 +620,8 @@ class EncodeError(Exception):
     def __init__(self, msg, name=None, cls=None, offset=None):
         Exception.__init__(self, msg)
         self.stack = [(offset, name, cls)]
+        self.cands = None
+        self.kind = "value"
 
 
 class Sparse:
@@ -650,12 +680,18 @@ class Encode:
                 else:
                     self.encode_field(f, pkt, vals, vals.get(f["name"]), opts)
                     i += 1
-            except EncodeError as e:
+            except (EncodeError, Overlap) as e:
+                if isinstance(e, Overlap):
+                    e = EncodeError("overlap: position %s already written" % (e.args[0],))
+                    e.kind = "overlap"
                 if e.stack[0][1] is None:
                     e.stack = [(start, f["name"], pkt["name"])]
+                    e.cands = run_candidates(pkt, f["name"], start)
+                    if f["k"] == "bits":
+                        e.cands = [(g["name"], start) for g in fields[i:runs[i]]]
                 else:
                     e.stack.append((None, f["name"], pkt["name"]))
-                raise
+                raise e
 
     def move(self, mv, vals, inner):
         cur = self.out.cursor
@@ -676,6 +712,8 @@ class Encode:
             new = {"begins": 0, "current-offset": cur, "innermost-pkt": inner}[mv["ref"]] + arg
         if new < 0:
             raise Unspecified("cursor before the start of the data")
+        if new > 4096:
+            raise Unspecified("position beyond 4096")
         self.out.cursor = new
 
     def encode_bits(self, run, vals):
@@ -765,14 +803,14 @@ def default_of(fam, f):
         return v
     if k == "refsel":
         if d[0] == "val":
-            return clone(d[1])
+            return complete(fam, clone(d[1]))
         v = defaults(fam, pkt_by_name(fam, d[1]))
         v.update(clone(d[2]))
         return v
     if k == "seq":
-        return clone(d) if d is not None else []
+        return complete(fam, clone(d)) if d is not None else []
     if k == "opt":
-        return clone(d) if d is not None else None
+        return complete(fam, clone(d)) if d is not None else None
     raise ValueError(k)
 
 
